@@ -445,7 +445,18 @@ TEXT = {
           "necessary), size gate before decoding, unknown codes refused without state change; the former counterexamples "
           "(unknown hash; from-number (0,0), (0,1), (1,0)) are positive theorems; "
           "model tied to the tree by regenerated constants/AST facts (incl. every write of request.Amount and the nil test of "
-          "GetMomentumsByHash) and by a differential stream driving the real ProtocolManager.",
+          "GetMomentumsByHash) and by a differential stream driving the real ProtocolManager. "
+          "Synchronisation (Props/C15Sync.lean): the control logic of protocol/downloader (Synchronise, findAncestor, fetchHashes, "
+          "fetchBlocks, process, queue.Reserve/Deliver/Expire, the three channels, the hash time-out and the block deadlines) as a "
+          "transition system over events (hash pack / block pack from any peer, tick, update with the requests handed out, import, "
+          "cancel, register / unregister, Synchronise); for the code as it is — pinned by AST facts and the real time-outs — the "
+          "time-out of the pending hash request is armed in every reachable state in which the hash fetcher waits (whatever other "
+          "peers send), silence ends a synchronisation within an explicit measure in the real constants, a synchronisation starts with "
+          "empty channels whatever the previous one left and its block fetcher cannot return before its hash fetcher said so, and a "
+          "dropped peer is the one at fault (forged block / failed import: the deliverer; the peer synchronised from only for its own "
+          "faults); the seeded change C15-r2-1 and the pre-repair code of FU1 / FU2 are variants of the same step function with "
+          "kernel-checked counterexamples. The p2p-net scenarios are replayed through the model by the driver (who is dropped, synced, "
+          "stalled).",
   "design_ref": "§3 C15",
   "note": "Only the handler logic is proved. Survival on arbitrary bytes, allocation inside rlp, goroutine hygiene and liveness are "
           "differential testing against the total model, not proof; the rlpx frame reader and the discovery packet decoder have "
@@ -457,14 +468,20 @@ TEXT = {
           "inputs are sent on every run and a recurrence is reported as a violation. The devp2p base protocol (disconnect reasons and "
           "payload shapes, ping/pong payloads, repeated / altered handshakes, unknown codes — after and instead of the handshake) and the "
           "downloader / fetcher under scripted hostile peers (sync peer silent at seven stages with a bystander's unsolicited packs, 22 "
-          "kinds of hostile answers, hostile helpers, import batches assembled from two peers) are exercised by the monitor-only stream "
+          "kinds of hostile answers, hostile helpers, import batches assembled from two peers) are exercised by the stream "
           "p2p-net on a node in a child process behind a real p2p.Server with raw RLPx clients; monitors: process survival, the node "
           "reaches the honest peer's height within deadlines derived from the real time-outs, honest peers are never disconnected, the "
           "peer that delivered a refused momentum is. All p2p streams run with production-like logging (every record formatted at debug "
-          "level). Known, not repaired: FU1 (errInvalidChain from any peer's mis-numbered block pack drops the honest origin peer), FU2 "
-          "(stale processCh value after a cancelled synchronisation stalls the downloader for ever; timing dependent).",
-  "technique": "Lean 4 proof (omega/case analysis) + regenerated constants and AST facts + differential correspondence over p2p.MsgPipe + "
-               "scenario monitors on a node process behind a real p2p.Server",
+          "level). FU1 (errInvalidChain from any peer's mis-numbered block pack dropped the honest origin peer) and FU2 (a stale "
+          "processCh value after a cancelled synchronisation stalled the downloader for ever), found by this stream, are repaired "
+          "(7ec6f07 + 5b338e6, 4fc5ee4). The downloader model abstracts the goroutines to event interleavings and MODELS Go channels "
+          "and timers (not verified); its liveness statement assumes that every update offers a request to every idle peer and does "
+          "not cover throttling, the 262144-hash limit, or a peer that keeps answering just in time; the replay of the scenarios "
+          "compares who is dropped and synced / stalled, not times, and the scenarios in which a block pack can cross a request "
+          "(five of 49 as a rule) are replayed on the hash level only.",
+  "technique": "Lean 4 proof (omega/case analysis; invariant + decreasing measure for the downloader state machine; decide for the "
+               "variant counterexamples) + regenerated constants and AST facts + differential correspondence over p2p.MsgPipe + "
+               "scenario monitors and model replay of scripted-peer traces on a node process behind a real p2p.Server",
  },
  "C16": {
   "text": "Kernel-checked theorems over a line-by-line model of chainBridge.InsertChain on an abstract chain with a verification "
